@@ -170,6 +170,26 @@ def run(tier):
             vi = enc.enc_cat(Category.parse(rng.choice(inv)))
             ev_clr(vi, ('X', 'nb'))
             ev_eqt(vi, gen.show_toks(vi), False)
+    # ---- values outside the model's alphabet (a one-part feature whose name is the empty text prints like no feature): nothing is
+    # said about WHEN they are equal, only what C13 states of any two values - equality is symmetric, != is its negation,
+    # equal values hash equally and a value's hash never changes
+    from depccg.cat import Atom, Functor, UnaryFeature
+
+    def degenerate(c, p):
+        if isinstance(c, Functor):
+            return Functor(degenerate(c.left, p), c.slash, degenerate(c.right, p))
+        return Atom(c.base, UnaryFeature('')) if c.feature == UnaryFeature(None) and rng.random() < p else c
+    n_deg = 0
+    for i in range(60 if tier == 'quick' else 600):
+        va = rng.choice(universe)
+        a0 = build(va, 'ctor')
+        a, b = degenerate(a0, 0.7), degenerate(a0, 0.3 if i % 2 else 0.0)
+        res, res2, ne, heq, h0 = bool(a == b), bool(b == a), bool(a != b), hash(a) == hash(b), hash(a)
+        str(a)
+        a == 'NP'
+        n_deg += 1
+        add({'e': 'eqd', 'g': 0, 'res': res, 'res2': res2, 'ne': ne, 'heq': heq, 'heq2': hash(a) == hash(b), 'hstable': hash(a) == h0},
+            {'a': repr(a)[:200], 'b': repr(b)[:200], 'note': 'atoms with the empty-named one-part feature'})
     # ---- container histories generated by TLC, replayed on a real dict and a real set
     n_hist = 0
     g = 0
